@@ -98,7 +98,7 @@ func (g *Gen) Scenario() {
 	n1, n2 := 1+g.R.Intn(3), 1+g.R.Intn(3)
 	avail := []int{0, 1, 2, 3, 4, 5, 6, 7, 12, 12, 13, 13, -1, -1}
 	if withObs {
-		avail = append(avail, 8, 9, 10, 11)
+		avail = append(avail, 8, 9, 10, 11, 14, 14)
 	}
 	pick := avail[g.R.Intn(len(avail))]
 	if pick < 0 {
@@ -106,6 +106,33 @@ func (g *Gen) Scenario() {
 		return
 	}
 	switch pick {
+	case 14: // batch exchange that removes the relation component of children of several targets (source tables
+		// merge into ONE destination) while adding a component, with OnAdd / OnRemove observers registered:
+		// every affected entity is reported exactly once, after the move, with its own data
+		b := g.firstComp(func(code int) bool { return code == CodeB })
+		if b < 0 {
+			return
+		}
+		q = append(q, g.mkNew(t1, nil, nil), g.mkNew(t2, nil, nil))
+		for i := 0; i < n1; i++ {
+			q = append(q, g.mkNew(&handleRef{-1}, []int{a, r1}, g.relTo(r1, t1)))
+		}
+		for i := 0; i < n2; i++ {
+			q = append(q, g.mkNew(&handleRef{-1}, []int{a, r1}, g.relTo(r1, t2)))
+		}
+		if g.R.Chance(50) { // the destination may already hold rows
+			q = append(q, g.mkNew(&handleRef{-1}, []int{a, b}, nil))
+		}
+		q = append(q, g.mkObserver(251, nil, true)...)
+		q = append(q, g.mkObserver([]int{252, 255, 254}[g.R.Intn(3)], nil, true)...)
+		q = append(q, g.mkFilter(&fi, []int{a, r1}, nil))
+		q = append(q, func() []int64 {
+			if fi < 0 || fi >= len(g.S.Filters) {
+				return nil
+			}
+			vals := [][2]int64{{int64(b), int64(1000 + g.R.Intn(1000))}}
+			return cat([]int64{31, int64(fi)}, encPairs(nil), encList([]int{b}), encList([]int{r1}), encPairs(nil), encPairs(vals))
+		})
 	case 13: // a stale handle of a recycled ID used as relation target while the new incarnation has a table
 		c1, c2 := &handleRef{-1}, &handleRef{-1}
 		q = append(q, g.mkNew(t1, nil, nil), g.mkNew(c1, []int{r1}, g.relTo(r1, t1)))
